@@ -191,7 +191,9 @@ theorem elem_callCmd (env : Env) (pruning : Int) (sv : Services) (host : Val) (n
         | none => exact h
         | some ss =>
           dsimp only
-          rw [if_pos (hashable_true _)]
+          by_cases hr : registerRefuses env (host, port) = true
+          · rw [if_pos hr]; exact h
+          rw [if_neg hr, if_pos (hashable_true _)]
           exact elem_regLoop env (host, port) now ⟨hh, hx port (by simp)⟩ ss sv h
   | unregister =>
     match xs with
@@ -367,7 +369,9 @@ theorem bounded_callCmd (env : Env) (pruning : Int) (sv : Services) (host : Val)
         | none => exact bounded_succ k sv h
         | some ss =>
           dsimp only
-          rw [if_pos (hashable_true _)]
+          by_cases hr : registerRefuses env (host, port) = true
+          · rw [if_pos hr]; exact bounded_succ k sv h
+          rw [if_neg hr, if_pos (hashable_true _)]
           have := boundedOr_regLoop env k (host, port) now ss sv (fun e he => Or.inl (h e he))
           intro e he
           rcases this e he with hle | ⟨hle, _⟩ <;> omega
